@@ -821,7 +821,7 @@ PROPS = {
              " Every other QUIC hello carries eight 200-byte ALPN identifiers behind h3 (about 2 KiB of CRYPTO data, two Initial packets)"
              " Six first flights that do not fit the 16 KiB prebuffer (the longest hello plus 2.5-8 KB, first segment 517 / 1 / 1023 ... bytes): the replayed stream must equal what was sent",
         explanation="theorems extract_exact, prefix_needs_more, found_is_the_field, loop_segmentation_invariant, "
-                    "loop_absent_never_wrong, loop_conserves, replay_transparent/complete about TT/Model/ClientHello.lean",
+                    "loop_absent_never_wrong, loop_conserves, replay_transparent/complete, answer_stable, loop_prebuffer_bounded, non_handshake_record_not_found about TT/Model/ClientHello.lean",
         trusted=["tls-parser 0.12 record/handshake/ClientHello walk as transcribed; exactness claimed for records whose first handshake "
                  "message is a ClientHello and for non-handshake records (a record starting with another handshake message is outside the model)",
                  "rustls handshake on the replayed bytes; QUIC: SSL_get_client_random of BoringSSL is trusted on both sides (the live "
